@@ -44,6 +44,55 @@ def sub_at(tree, path):
     return cur
 
 
+import re as _re
+_STMT = _re.compile(r"^(.*/(?:List|Decls|Body|Specs)/\[\d+\])")
+
+
+def lift(path):
+    """the enclosing statement / declaration / clause element of a path"""
+    best = None
+    for m in _re.finditer(r"/(?:List|Decls|Body|Specs)/\[\d+\]", path):
+        best = path[:m.end()]
+    return best if best is not None else (path.rsplit("/", 1)[0] if "/" in path.strip("/") else path)
+
+
+def is_subsequence(xs, ys):
+    it = iter(ys)
+    return all(any(x == y for y in it) for x in xs)
+
+
+def kept_statements_lost(o, it0):
+    """for every statement list the model changed: the statements the model keeps from the input must
+    reappear, in order, in gopatch's list"""
+    bad = []
+    def lists(t, path=""):
+        # yield (path, elements) for every slice in the canonical tree
+        k = t[0]
+        if k == "slice":
+            yield path, t[2:]
+            for j, x in enumerate(t[2:]):
+                yield from lists(x, path + "/[%d]" % j)
+        elif k in ("ptr", "iface"):
+            yield from lists(t[2], path)
+        elif k == "struct":
+            fn = enginecorr.schema()["fields"].get(int(t[1]), [])
+            for j, x in enumerate(t[2:]):
+                yield from lists(x, path + "/" + (fn[j] if j < len(fn) else str(j)))
+    inl = dict(lists(it0))
+    ml = dict(lists(o["mtree"]))
+    il = dict(lists(o["itree"]))
+    for path, s_el in inl.items():
+        if not (path.endswith("/List") or path.endswith("/Body") or path.endswith("/Decls")):
+            continue
+        m_el, i_el = ml.get(path), il.get(path)
+        if m_el is None or i_el is None or m_el == i_el:
+            continue
+        kept = [x for x in m_el if x in s_el]
+        if not is_subsequence(kept, i_el):
+            bad.append(path)
+    return bad
+
+
 def report(ck, name, pair, o, projection, meta=None):
     """projection in {'sites', 'content', 'frame', 'any'}; returns True if the case was judged"""
     pn, ps, fn, fs = pair
@@ -60,42 +109,48 @@ def report(ck, name, pair, o, projection, meta=None):
     atoms = r.get("atoms") or []
     a = analyse(o) if o.get("mtree") is not None else None
     if a is None:
-        # per-change outcomes differ (match / no match / error)
         what = "; ".join(o["diffs"][:2])
         if projection in ("sites", "any"):
             ck.violation("gopatch and the proved matcher disagree on whether the change applies: %s" % what, rep)
+        elif projection == "frame" and "ok" in (o.get("isteps") or []) and "ok" not in (o.get("msteps") or []):
+            ck.violation("the file was changed although no change applies to it (by the proved matcher and guards): %s" % what, rep)
         else:
             ck.mismatch("engine model and gopatch disagree: %s" % what, rep, CORR)
         return True
-    rep["model_sites"], rep["gopatch_sites"] = a["model_sites"][:10], a["impl_sites"][:10]
     it0 = canon(parse_sx(r["in_tree"]))
-    if a["extra"] or a["missing"]:
-        for p in a["extra"][:2]:
-            rep.setdefault("details", []).append({"path": p, "before": show(sub_at(it0, p), atoms), "after_gopatch": show(sub_at(o["itree"], p), atoms)})
-        for p in a["missing"][:2]:
-            rep.setdefault("details", []).append({"path": p, "before": show(sub_at(it0, p), atoms), "after_model": show(sub_at(o["mtree"], p), atoms)})
-        if projection in ("sites", "any"):
-            if a["extra"]:
-                ck.violation("code that is not an instance of the '-' pattern (by the proved matcher) was rewritten at %s" % a["extra"][:3], rep)
-            else:
-                ck.violation("an instance of the '-' pattern (not inside another rewritten instance) was not rewritten at %s" % a["missing"][:3], rep)
-        elif projection == "frame" and a["extra"]:
-            ck.violation("code outside the rewritten fragments changed at %s" % a["extra"][:3], rep)
-        else:
-            ck.mismatch("engine model and gopatch disagree on the rewritten sites: extra %s missing %s" % (a["extra"][:3], a["missing"][:3]), rep, CORR)
-        return True
-    # same sites, different content
-    paths = diff_paths(o["mtree"], o["itree"])
-    for p in paths[:2]:
+    D = diff_paths(o["mtree"], o["itree"])
+    region_m = set(lift(p) for p in a["model_sites"])
+    region_i = set(lift(p) for p in a["impl_sites"])
+    extra_r = sorted(region_i - region_m)
+    missing_r = sorted(region_m - region_i)
+    d_in = [p for p in D if lift(p) in region_m]
+    d_out = [p for p in D if lift(p) not in region_m]
+    rep["model_changed"], rep["gopatch_changed"], rep["differences"] = sorted(region_m)[:10], sorted(region_i)[:10], D[:6]
+    for p in D[:3]:
         try:
-            rep.setdefault("details", []).append({"path": p, "model": show(sub_at(o["mtree"], p), atoms), "gopatch": show(sub_at(o["itree"], p), atoms)})
+            rep.setdefault("details", []).append({"path": p, "input": show(sub_at(it0, p), atoms), "model": show(sub_at(o["mtree"], p), atoms),
+                                                  "gopatch": show(sub_at(o["itree"], p), atoms)})
         except Exception:
             pass
     imports_differ = any("imports differ" in d for d in o["diffs"])
-    if paths and projection in ("content", "any"):
-        ck.violation("the code written at a rewritten site is not the '+' pattern instantiated with the captured code (at %s)" % paths[:3], rep)
-    elif paths and projection == "frame" and not any(under(p, a["model_sites"]) for p in paths):
-        ck.violation("code outside the rewritten fragments changed at %s" % paths[:3], rep)
-    elif paths or imports_differ:
+    judged = False
+    if projection in ("sites", "any") and (extra_r or missing_r):
+        judged = True
+        if extra_r:
+            ck.violation("code that is not an instance of the '-' pattern (by the proved matcher) was rewritten in %s" % extra_r[:3], rep)
+        else:
+            ck.violation("an instance of the '-' pattern (not inside another rewritten instance) was not rewritten in %s" % missing_r[:3], rep)
+    if projection == "content" and missing_r and not judged:
+        judged = True
+        ck.violation("a site was left unchanged although the instantiated replacement fits there (%s)" % missing_r[:3], rep)
+    if projection in ("content", "any") and d_in and not judged:
+        judged = True
+        ck.violation("the code written at a rewritten site is not the '+' pattern instantiated with the captured code (at %s)" % d_in[:3], rep)
+    if projection in ("frame", "any") and not judged:
+        lost = kept_statements_lost(o, it0)
+        if d_out or extra_r or lost:
+            judged = True
+            ck.violation("code outside the rewritten fragments changed (%s)" % ((d_out or extra_r or lost)[:3],), rep)
+    if not judged and (D or imports_differ):
         ck.mismatch("engine model and gopatch disagree: %s" % "; ".join(o["diffs"][:2]), rep, CORR)
     return True
